@@ -5,6 +5,7 @@ package main
 // compared by value).
 
 import (
+	"encoding/hex"
 	"fmt"
 	"math"
 	"math/big"
@@ -213,7 +214,8 @@ func (h *harness) encodeOne(ds dataset, cfg encCfg, mode11 bool, docBase string)
 	}
 
 	// ---- T3: the model's document
-	line := "jl.encode " + cfg.wire() + " " + gquadsWire(ds.quads)
+	hint := rootHint(gdoc)
+	line := "jl.encode " + cfg.wire() + " " + hint + " " + gquadsWire(ds.quads)
 	h.add(line, func(model string) {
 		if !strings.HasPrefix(model, "ok:") {
 			h.rep.Add(vh.Case{Kind: "disagreement", Op: line, Model: model, Go: string(res.doc), Detail: "driver: " + desc})
@@ -264,8 +266,6 @@ func (h *harness) encodeOne(ds dataset, cfg encCfg, mode11 bool, docBase string)
 				key = "encoder-drops-named-graphs"
 			case dres.err != nil && strings.Contains(dres.err.Error(), "parse:") && hasC1(ds.quads):
 				key = "literal-with-c1-control"
-			case hasOnceReferencedCycle(ds.quads):
-				key = "cycle-all-refcount-1"
 			case schemeClashGo(cfg, ds.quads):
 				key = "iri-scheme-equals-declared-prefix"
 			case resolverDeviates(gdoc, docBase) || (cfg.base != "" && (baseOutsideDomain(cfg.base) || resolverDeviates(gdoc, cfg.base))):
@@ -279,7 +279,7 @@ func (h *harness) encodeOne(ds dataset, cfg encCfg, mode11 bool, docBase string)
 	}
 
 	// ---- the certificate of theorem encoder_roundtrip_partial, and the unproved implication
-	cline := fmt.Sprintf("jl.cert %s %s %s %s", modeTok(mode11), baseTok(docBase), cfg.wire(), gquadsWire(ds.quads))
+	cline := fmt.Sprintf("jl.cert %s %s %s %s %s", modeTok(mode11), baseTok(docBase), cfg.wire(), hint, gquadsWire(ds.quads))
 	h.add(cline, func(model string) {
 		flags := map[string]bool{}
 		for _, f := range strings.Fields(model) {
@@ -291,7 +291,12 @@ func (h *harness) encodeOne(ds dataset, cfg encCfg, mode11 bool, docBase string)
 			h.rep.Add(vh.Case{Kind: "disagreement", Op: cline, Model: model, Detail: "driver: " + desc})
 			return
 		}
-		natural := flags["dg"] && flags["nonative"] && flags["wf"] && flags["acyclic"] && !flags["clash"]
+		// (cycles of once-referenced blank nodes are no obstacle since fix-c17-export-cycles; the flag
+		// `acyclic` is still reported by the driver and only counted)
+		natural := flags["dg"] && flags["nonative"] && flags["wf"] && !flags["clash"]
+		if !flags["acyclic"] {
+			h.rep.Count("encode:once-referenced-cycle")
+		}
 		h.rep.Count(fmt.Sprintf("encode:cert=%v,natural=%v", flags["cert"], natural))
 		classify := func() string {
 			switch {
@@ -299,8 +304,6 @@ func (h *harness) encodeOne(ds dataset, cfg encCfg, mode11 bool, docBase string)
 				return "literal-with-c1-control"
 			case !flags["dg"]:
 				return "encoder-drops-named-graphs"
-			case !flags["acyclic"]:
-				return "cycle-all-refcount-1"
 			case flags["clash"]:
 				return "iri-scheme-equals-declared-prefix"
 			case resolverDeviates(gdoc, docBase) || (cfg.base != "" && resolverDeviates(gdoc, cfg.base)):
@@ -368,37 +371,6 @@ func baseOutsideDomain(b string) bool {
 	return err != nil || pb.String() != b
 }
 
-// hasOnceReferencedCycle: following the unique reference backwards from a once-referenced blank node
-// never leaves the once-referenced nodes (C17's cycle-all-refcount-1 / self-reference-refcount-1).
-func hasOnceReferencedCycle(qs []vh.GQuad) bool {
-	refs := map[int]int{}
-	parent := map[int]vh.GTerm{}
-	for _, q := range qs {
-		if q.G == nil && q.O.Kind == vh.KBNode {
-			refs[q.O.BNode]++
-			parent[q.O.BNode] = q.S
-		}
-	}
-	for b, n := range refs {
-		if n != 1 {
-			continue
-		}
-		cur := b
-		for steps := 0; steps <= len(qs); steps++ {
-			p := parent[cur]
-			if p.Kind != vh.KBNode || refs[p.BNode] != 1 {
-				cur = -1
-				break
-			}
-			cur = p.BNode
-		}
-		if cur != -1 {
-			return true
-		}
-	}
-	return false
-}
-
 func usablePrefix(name, ns string) bool {
 	if name == "" || name == "_" || strings.ContainsAny(name, ":/") {
 		return false
@@ -436,4 +408,26 @@ func schemeClashGo(cfg encCfg, qs []vh.GQuad) bool {
 		}
 	}
 	return false
+}
+
+// rootHint lists the blank node labels of the top-level node objects of the implementation's document:
+// which node of a cycle of once-referenced blank nodes becomes a resource depends on Go's map iteration
+// order, a parameter of the model (second pass of ExportResources); the model tries these first.
+func rootHint(doc *JV) string {
+	var items []*JV
+	if g := doc.get("@graph"); g != nil && g.kind == jArr && doc.get("@id") == nil {
+		items = g.xs
+	} else {
+		items = []*JV{doc}
+	}
+	var hs []string
+	for _, it := range items {
+		if id := it.get("@id"); id != nil && id.kind == jStr && strings.HasPrefix(id.s, "_:") {
+			hs = append(hs, hex.EncodeToString([]byte(id.s[2:])))
+		}
+	}
+	if len(hs) == 0 {
+		return "-"
+	}
+	return strings.Join(hs, ";")
 }
